@@ -43,12 +43,13 @@ type Ctx struct {
 	n         int
 	prelude   []string          // always included (sorts, spec functions, axioms)
 	opaqueAlt map[string]string // prelude line -> weaker replacement (declaration only)
+	allocSyms map[string]bool   // reference terms produced by distinct allocations (pairwise different)
 	strs      map[string]string
 	strList   []string
 }
 
 func newCtx() *Ctx {
-	return &Ctx{idx: map[string]int{}, strs: map[string]string{}, opaqueAlt: map[string]string{}}
+	return &Ctx{idx: map[string]int{}, strs: map[string]string{}, opaqueAlt: map[string]string{}, allocSyms: map[string]bool{}}
 }
 
 func (c *Ctx) name(prefix string) string {
@@ -119,6 +120,17 @@ func (c *Ctx) defineGuard(prev, conj string) string {
 	return n
 }
 
+func (c *Ctx) defText(n string) string {
+	if i, ok := c.idx[n]; ok {
+		l := c.defs[i].line
+		if len(l) > 300 {
+			l = l[:300]
+		}
+		return l
+	}
+	return "?"
+}
+
 // selectOf simplifies (select h ref) when h is (a merge of) stores at the very same term.
 func (c *Ctx) selectOf(h, ref string) string {
 	if v := c.resolveSelect(h, ref, 0); v != "" {
@@ -159,6 +171,10 @@ func (c *Ctx) resolveSelect(h, ref string, depth int) string {
 	case len(parts) == 4 && parts[0] == "store":
 		if parts[2] == ref {
 			return parts[3]
+		}
+		if c.allocSyms[parts[2]] && c.allocSyms[ref] {
+			// two different allocations never alias: look through the store
+			return c.resolveSelect(parts[1], ref, depth+1)
 		}
 		return ""
 	case len(parts) == 4 && parts[0] == "ite":
